@@ -81,29 +81,18 @@ def firstSome {α β : Type} (f : α → Option β) : List α → Option β
 
 /-! ### Tables (generated from the source) -/
 
-def tblPair (i : Nat) : Str × Str :=
-  match Gen.Dispatch.builtinPairs[i]? with
-  | some (a, b) => (a.toList, b.toList)
-  | none => ([], [])
+def pairOf (p : String × String) : Str × Str := (p.1.toList, p.2.toList)
 
-/-- (error name, format) of the `i`-th `_send_err` call. -/
-def tblErr (i : Nat) : Str × Str :=
-  match Gen.Dispatch.lookupErrors[i]? with
-  | some (n, f, _) => (n.toList, f.toList)
-  | none => ([], [])
-
-def peerPair : Str × Str := tblPair 0
-def introspectPair : Str × Str := tblPair 1
-def managedPair : Str × Str := tblPair 2
-def unknownObject : Str × Str := tblErr 0
-/-- repair C10-02: the error sent when building the GetManagedObjects reply raises. -/
-def managedFailed : Str × Str := tblErr 1
-def unknownMethod : Str × Str := tblErr 2
-def invalidArgs : Str × Str := tblErr 3
+def peerPair : Str × Str := pairOf Gen.Dispatch.peerPair
+def introspectPair : Str × Str := pairOf Gen.Dispatch.introspectPair
+def managedPair : Str × Str := pairOf Gen.Dispatch.managedPair
+def introspectSig : Str := Gen.Dispatch.introspectSig.toList
+def managedSig : Str := Gen.Dispatch.managedSig.toList
 def pyExceptionPrefix : Str := Gen.Dispatch.pyExceptionPrefix.toList
 def invalidNameNotice : Str := Gen.Dispatch.invalidNameNotice.toList
 def invalidErrorName : Str := Gen.Dispatch.invalidErrorName.toList
 def attrPrefix : Str := Gen.Dispatch.attrPrefix.toList
+def callerKeyword : Str := Gen.Dispatch.callerKeyword.toList
 
 /-! ### Declarations -/
 
@@ -124,12 +113,21 @@ structure Iface where
 
 /-- A function found in a class `__dict__`.  `id` identifies the user function (it is what an
 invocation records); `deco` is `(_dbusInterface, _dbusMethod)` when decorated with
-`@dbusMethod`; `wantsCaller` is "the last positional parameter is named `dbusCaller`". -/
+`@dbusMethod`; `params` are the names of its positional parameters, `self` included
+(`inspect.getfullargspec(bound_method)[0]`). -/
 structure Func where
   id : Nat
   deco : Option (Str × Str)
-  wantsCaller : Bool
+  params : List Str
   deriving DecidableEq, Repr
+
+/-- `DBusObject._set_method_flags`: `len(args) >= N and args[-1] == 'dbusCaller'` (keyword and N
+from the source) - what "the method asks for the caller's name" means. -/
+def needsCaller (params : List Str) : Bool :=
+  decide (params.length ≥ Gen.Dispatch.callerMinArgs) && (params.getLast? == some callerKeyword)
+
+/-- `m._dbusCaller` -/
+def Func.wantsCaller (f : Func) : Bool := needsCaller f.params
 
 /-- One class of `type(obj).__mro__` (without `object`): `ifaces` is `some l` iff
 `'dbusInterfaces' in cls.__dict__`; `attrs` are the functions of `cls.__dict__` in definition
@@ -226,9 +224,12 @@ structure Env (V : Type) where
   validErr : Str → Bool
   textFix : Str → Option Str
 
+/-- `t.replace(a, b)` for a one-character `a`. -/
+def replaceChar (a : Char) (b : Str) (t : Str) : Str :=
+  t.flatMap fun c => if c = a then b else [c]
+
 /-- repair C10-01: `errMsg.replace('\0', '\\x00')` -/
-def escapeNul (t : Str) : Str :=
-  t.flatMap fun c => if c = '\x00' then ['\\', 'x', '0', '0'] else [c]
+def escapeNul (t : Str) : Str := replaceChar '\x00' ['\\', 'x', '0', '0'] t
 
 /-- the repaired `send_error`: the text is escaped, `ErrorMessage(...)` does not raise. -/
 def fixRepaired (t : Str) : Option Str := some (escapeNul t)
@@ -236,6 +237,18 @@ def fixRepaired (t : Str) : Option Str := some (escapeNul t)
 /-- `send_error` before repair C10-01: the text is used as it is and `ErrorMessage(...)` raises
 `MarshallingError` on an embedded NUL (nothing is sent). -/
 def fixPrefix (t : Str) : Option Str := if t.contains '\x00' then none else some t
+
+/-- What `send_error` of the source under test does with the text, read off the generated table:
+with an escape statement the text is escaped and sent; without one (the code before repair
+C10-01) `ErrorMessage(...)` raises when the text contains NUL.  (Lone surrogates are not values
+of `Char`; the `.encode('utf-8', 'backslashreplace').decode('utf-8')` that follows the escape is
+the identity on every other string.) -/
+def fixSource (t : Str) : Option Str :=
+  match Gen.Dispatch.textEscape with
+  | some (a, b) =>
+    let t' := replaceChar (Char.ofNat a) b.toList t
+    if t'.contains '\x00' then none else some t'
+  | none => fixPrefix t
 
 /-! ### Lookup (handleMethodCallMessage) -/
 
@@ -315,13 +328,38 @@ def resolveImpl (o : Obj) (iname member : Str) : Option Func :=
     | some (i, _) => if i ≠ iname then getDecorated o iname member else some f
     | none => some f
 
-def notImplemented : Exc := { cls := "NotImplementedError".toList, errName := none, text := [] }
+/-- `raise NotImplementedError` (class name from the source): no arguments, empty text. -/
+def notImplemented : Exc := { cls := Gen.Dispatch.unboundException.toList, errName := none, text := [] }
 
 /-! ### Replies -/
 
 /-- `self._send_err(msg, name, text)` -/
 def sendErr {V : Type} (c : Call V) (name text : Str) : Event V :=
   .sent (.err name c.serial c.sender text)
+
+/-- The text of a `_send_err` call: the pieces of the generated table filled from the call, the
+method found (`sigIn`) and the caught exception (`exc`). -/
+def renderText {V : Type} (c : Call V) (sigIn exc : Str) : List Gen.Dispatch.Piece → Str
+  | [] => []
+  | .lit s :: t => s.toList ++ renderText c sigIn exc t
+  | .path :: t => c.path ++ renderText c sigIn exc t
+  | .member :: t => c.member ++ renderText c sigIn exc t
+  | .sigOr d :: t => orElse c.sig d.toList ++ renderText c sigIn exc t
+  | .ifaceOr d :: t => orElse c.iface d.toList ++ renderText c sigIn exc t
+  | .sigInOr d :: t => orElse (some sigIn) d.toList ++ renderText c sigIn exc t
+  | .excText :: t => exc ++ renderText c sigIn exc t
+
+def errEvent {V : Type} (c : Call V) (tbl : String × List Gen.Dispatch.Piece) (sigIn exc : Str) : Event V :=
+  sendErr c tbl.1.toList (renderText c sigIn exc tbl.2)
+
+/-- `'%s is not an object provided by this process.'` -/
+def unknownObjectErr {V : Type} (c : Call V) : Event V := errEvent c Gen.Dispatch.unknownObject [] []
+/-- `'Method "%s" with signature "%s" on interface "%s" doesn't exist'` -/
+def unknownMethodErr {V : Type} (c : Call V) : Event V := errEvent c Gen.Dispatch.unknownMethod [] []
+/-- `'Call to %s has wrong args (%s, expected %s)'` -/
+def invalidArgsErr {V : Type} (c : Call V) (m : Method) : Event V := errEvent c Gen.Dispatch.invalidArgs m.sigIn []
+/-- repair C10-02: `'GetManagedObjects failed: %s' % (e,)` -/
+def managedFailedErr {V : Type} (c : Call V) (e : Exc) : Event V := errEvent c Gen.Dispatch.managedFailed [] e.text
 
 /-- What a reply needs to remember of the call (the closure of `send_reply` / `send_error`). -/
 structure Pending where
@@ -389,7 +427,7 @@ def dispatchMethod {V : Type} (env : Env V) (o : Obj) (k : Nat) (c : Call V) (be
     (i : Iface) (m : Method) : List (Event V) × Option Pending :=
   -- msig = msg.signature if not None else ''; esig = m.sigIn; if esig != msig
   if m.sigIn ≠ c.sig.getD [] then
-    ([sendErr c invalidArgs.1 (pyFormat invalidArgs.2 [c.member, orElse c.sig [], m.sigIn])], none)
+    ([invalidArgsErr c m], none)
   else
     -- d = defer.maybeDeferred(o.executeMethod, i, msg.member, msg.body, msg.sender)
     match resolveImpl o i.name c.member with
@@ -407,25 +445,24 @@ def handleCall {V : Type} (env : Env V) (ex : Exports) (k : Nat) (c : Call V)
     ([.sent (.ret c.serial c.sender none .empty)], none)
   -- if msg.interface == '...Introspectable' and msg.member == 'Introspect': xml = ...; if xml is not None
   else if (c.iface = some introspectPair.1 ∧ c.member = introspectPair.2) ∧ introspectable ex c.path = true then
-    ([.sent (.ret c.serial c.sender (some ['s']) (.xml c.path))], none)
+    ([.sent (.ret c.serial c.sender (some introspectSig) (.xml c.path))], none)
   else
     -- o = self.exports.get(msg.path, None)
     match dictGet ex c.path with
     | none =>
-      ([sendErr c unknownObject.1 (pyFormat unknownObject.2 [c.path])], none)
+      ([unknownObjectErr c], none)
     | some o =>
       -- if msg.interface == '...ObjectManager' and msg.member == 'GetManagedObjects'
       if c.iface = some managedPair.1 ∧ c.member = managedPair.2 then
         -- try: i_and_p = self.getManagedObjects(...); r = MethodReturnMessage(...)
         -- except Exception as e: self._send_err(msg, '...Failed', '... %s' % (e,))      (repair C10-02)
         match env.managedErr c.path with
-        | none => ([.sent (.ret c.serial c.sender (some "a{oa{sa{sv}}}".toList) (.managed c.path))], none)
-        | some e => ([sendErr c managedFailed.1 (pyFormat managedFailed.2 [e.text])], none)
+        | none => ([.sent (.ret c.serial c.sender (some managedSig) (.managed c.path))], none)
+        | some e => ([managedFailedErr c e], none)
       else
         match lookupMethod o c.iface c.member with
         | none =>
-          ([sendErr c unknownMethod.1
-              (pyFormat unknownMethod.2 [c.member, orElse c.sig [], orElse c.iface "(null)".toList])], none)
+          ([unknownMethodErr c], none)
         | some (i, m) => dispatchMethod env o k c behav i m
 
 /-! ### Histories -/
@@ -433,42 +470,58 @@ def handleCall {V : Type} (env : Env V) (ex : Exports) (k : Nat) (c : Call V)
 inductive Op (V : Type) where
   | call (c : Call V) (behav : Nat → Outcome V)
   | resolve (k : Nat) (r : Resolution V)
+  /-- `exportObject(obj)` with `obj.getObjectPath() == path` -/
+  | exportObj (path : Str) (o : Obj)
+  /-- `unexportObject(path)` -/
+  | unexportObj (path : Str)
+
+/-- `del d[k]` (a missing key raises KeyError to the application: nothing changes). -/
+def dictErase {α : Type} (d : List (Str × α)) (k : Str) : List (Str × α) :=
+  d.filter fun e => e.1 ≠ k
 
 /-- `next` is the number of operations processed so far. -/
 structure State where
   next : Nat
   pending : List Pending
+  exports : Exports
   deriving Repr
 
-def State.init : State := { next := 0, pending := [] }
+def State.init (ex : Exports) : State := { next := 0, pending := [], exports := ex }
 
 /-- One operation: the new state and the events, each tagged with the call it belongs to.  A
 Deferred fires at most once (`resolve` of a call that is not pending does nothing here; Twisted
-raises `AlreadyCalledError` to the user code that fires it twice). -/
-def step {V : Type} (env : Env V) (ex : Exports) (s : State) : Op V → State × List (Nat × Event V)
+raises `AlreadyCalledError` to the user code that fires it twice).  The InterfacesAdded /
+InterfacesRemoved signals of export / unexport are not replies to any call (C16's). -/
+def step {V : Type} (env : Env V) (s : State) : Op V → State × List (Nat × Event V)
   | .call c behav =>
-    let r := handleCall env ex s.next c behav
+    let r := handleCall env s.exports s.next c behav
     ({ next := s.next + 1,
        pending := match r.2 with
          | some p => p :: s.pending
-         | none => s.pending },
+         | none => s.pending,
+       exports := s.exports },
      r.1.map fun e => (s.next, e))
   | .resolve k r =>
     match s.pending.find? (fun p => p.id = k) with
     | some p =>
-      ({ next := s.next + 1, pending := s.pending.filter (fun q => q.id ≠ k) },
+      ({ next := s.next + 1, pending := s.pending.filter (fun q => q.id ≠ k), exports := s.exports },
        (fire env p r).map fun e => (k, e))
-    | none => ({ next := s.next + 1, pending := s.pending }, [])
+    | none => ({ next := s.next + 1, pending := s.pending, exports := s.exports }, [])
+  | .exportObj path o =>
+    ({ next := s.next + 1, pending := s.pending, exports := dictSet s.exports path o }, [])
+  | .unexportObj path =>
+    ({ next := s.next + 1, pending := s.pending, exports := dictErase s.exports path }, [])
 
 /-- A whole history from `s`: final state and all tagged events in order. -/
-def runFrom {V : Type} (env : Env V) (ex : Exports) (s : State) : List (Op V) → State × List (Nat × Event V)
+def runFrom {V : Type} (env : Env V) (s : State) : List (Op V) → State × List (Nat × Event V)
   | [] => (s, [])
   | op :: rest =>
-    let r := step env ex s op
-    let r' := runFrom env ex r.1 rest
+    let r := step env s op
+    let r' := runFrom env r.1 rest
     (r'.1, r.2 ++ r'.2)
 
+/-- A history starting with exports `ex`. -/
 def run {V : Type} (env : Env V) (ex : Exports) (ops : List (Op V)) : State × List (Nat × Event V) :=
-  runFrom env ex State.init ops
+  runFrom env (State.init ex) ops
 
 end Txdbus.Obj.Dispatch
